@@ -661,6 +661,14 @@ int main(int argc, char* argv[])
     blobs.push_back(parameter_blob(parameter_t::make_scalar_pair("rpair", 0.0, LT, 1e-4, LT, 0.9, LT, 1.0)));
     blobs.push_back(parameter_blob(parameter_t::make_enum("enum", feature_type::sclass)));
     blobs.push_back(parameter_blob(parameter_t::make_string("string", "some text value")));
+    // ... values at the edges of their representation: 64-bit integers no double holds, the extreme doubles, a string with embedded NUL / quotes
+    blobs.push_back(parameter_blob(parameter_t::make_integer("wide", -(int64_t{1} << 62U), LE, (int64_t{1} << 53U) + 1, LE, int64_t{1} << 62U)));
+    blobs.push_back(parameter_blob(parameter_t::make_integer_pair("widepair", -(int64_t{1} << 62U), LE, -((int64_t{1} << 53U) + 1), LT, (int64_t{1} << 53U) + 3, LE,
+                                                                  int64_t{1} << 62U)));
+    blobs.push_back(parameter_blob(parameter_t::make_scalar("tiny", -1e308, LE, 4.9406564584124654e-324, LE, 1e308)));
+    blobs.push_back(parameter_blob(parameter_t::make_scalar_pair("edges", -1.7976931348623157e308, LE, -2.2250738585072014e-308, LT, 2.2250738585072014e-308, LE,
+                                                                 1.7976931348623157e308)));
+    blobs.push_back(parameter_blob(parameter_t::make_string("odd", std::string("a\0b\n\"c\\", 7))));
     // features
     blobs.push_back(feature_blob(feature_t{"scalar"}.scalar(feature_type::float64)));
     blobs.push_back(feature_blob(feature_t{"struct"}.scalar(feature_type::int16, make_dims(3, 2, 2))));
